@@ -240,11 +240,23 @@ def run_family(out, names, expect_fail=(), tier="quick", timeout_s=None, target_
     slots = min(len(failed), 8)
     chunks = [failed[i::slots] for i in range(slots)]
 
+    # first all copies (nothing may write into `target` meanwhile: slot 0 builds in it), then the playbacks
+    def copy_slot(i):
+        tdir = "%s-pb%d" % (target, i)
+        shutil.rmtree(tdir, ignore_errors=True)
+        for attempt in range(2):
+            try:
+                shutil.copytree(target, tdir, symlinks=True, ignore=shutil.ignore_patterns("incremental"))
+                return
+            except shutil.Error:
+                shutil.rmtree(tdir, ignore_errors=True)
+        shutil.copytree(target, tdir, symlinks=True, ignore=shutil.ignore_patterns("incremental"), ignore_dangling_symlinks=True)
+
+    with ThreadPoolExecutor(max_workers=max(1, slots - 1)) as ex:
+        list(ex.map(copy_slot, range(1, slots)))
+
     def pb_slot(i):
         tdir = target if i == 0 else "%s-pb%d" % (target, i)
-        if i != 0:
-            shutil.rmtree(tdir, ignore_errors=True)
-            shutil.copytree(target, tdir, symlinks=True)
         try:
             return cargo_kani(chunks[i], tdir, timeout_s, playback=True)[1]
         finally:
